@@ -145,7 +145,9 @@ class EndpointParameterProcessor:
         If a path variable is not already defined as a parameter, it's added as a required string type.
         This also updates the param_details_map.
         """
-        url_vars = extract_url_variables(op.path)
+        # In order of first appearance in the path template: a set has no stable iteration order, and the order in
+        # which undeclared path variables are appended is the order of the generated method's positional arguments
+        url_vars = sorted(extract_url_variables(op.path), key=lambda var: op.path.index("{" + var + "}"))
 
         # Make a copy to modify if necessary
         updated_params = list(current_params)
